@@ -82,7 +82,9 @@ const ruleFault = "rapid: the same histories over a fault-injecting storage.Inte
 var (
 	// VERIF_C15_NO_EXCLUDE=1 switches the exclusions off (generator only), to validate a repair
 	// of the defects: on a repaired tree the check must then be silent, witnesses included.
-	noExclude               = os.Getenv("VERIF_C15_NO_EXCLUDE") != ""
+	// The three defects below were repaired in /repo ("fix:" commits 303a481, 96ec96d, 0a5d525): the
+	// input classes are generated again; VERIF_C15_EXCLUDE=1 brings the exclusions back.
+	noExclude               = os.Getenv("VERIF_C15_EXCLUDE") == ""
 	excludeDotIDs           = !noExclude // an object whose ID is "." or ".." is stored but never listed
 	excludeNegLimitFiltered = !noExclude // List(..., limit < 0) ignores the pattern and the offset
 	excludeLimitOverflow    = !noExclude // List(..., offset, limit) panics when offset+limit overflows int
